@@ -71,7 +71,11 @@ Contrib(tg, r, n) ==
                                 \cup UNION {UNION {T(tg, x) : x \in ReturnsOf(m)} : m \in ms}
                                 \cup (IF r.op = "object_call_stmt" THEN T(tg, r.receiver_object) ELSE {}) ELSE {})
           \cup UNION {LET ps == ParamsOf(m) IN
-                      UNION {IF ps[j].name = n
+                      UNION {IF ps[j].name = n /\ "%packed_named_pmt" \in ToSet(ps[j].attrs)
+                             THEN UNION {T(tg, r.named_toks[k].tok.s) : k \in 1..Len(r.named_toks)}        \* **kwargs: any keyword may land in it
+                             ELSE IF ps[j].name = n /\ "%packed_pos_pmt" \in ToSet(ps[j].attrs)
+                             THEN UNION {T(tg, a) : a \in ToSet(r.args)}                                  \* *args: any positional argument
+                             ELSE IF ps[j].name = n
                              THEN (IF j <= Len(r.args) THEN T(tg, r.args[j]) ELSE {})
                                   \cup UNION {T(tg, r.named_toks[k].tok.s) : k \in {i \in 1..Len(r.named_toks) : r.named_toks[i].name = n}}
                              ELSE {} : j \in 1..Len(ps)} : m \in ms}
